@@ -54,7 +54,10 @@ def run_cases(draw):
             # names a design twice
             "start": draw(st.sampled_from(["random", "random", "grid", "custom-twins"])),
             # the run is recorded in an SQLite store as well: the stored record must show the same generations
-            "store": draw(st.sampled_from([False, False, True]))}
+            "store": draw(st.sampled_from([False, False, True])),
+            # an inequality constraint g(x) = c - x0 < 0 (designs with x0 <= c are infeasible although their objective
+            # values are the better ones): elitism then means constrained dominance - feasibility first
+            "constraint": draw(st.one_of(st.none(), st.none(), st.sampled_from([-1.0, 0.0, 0.3, 1.0])))}
 
 
 def check_run(case):
@@ -85,7 +88,8 @@ def check_run(case):
         for p_ in ps:
             p_["precision"] = 0.5
     cs = [{"name": "f%d" % j, "criteria": "minimize"} for j in range(m)]
-    prob = make_problem(ps, cs, ev)
+    cons = case.get("constraint")
+    prob = make_problem(ps, cs, ev, constraints=(lambda x: [cons - float(x[0])]) if cons is not None else None)
     seed_all(case["seed"])
     sizes = []
     real_acc = Selector.pop_acceptance
@@ -172,11 +176,21 @@ def check_run(case):
                 for d in dropped:
                     # the harness problem has no constraints: every design is equally feasible, so the comparison
                     # is on the objectives alone (a marker that differs between designs must not excuse a loss)
+                    if cons is not None:
+                        # feasibility recomputed by the harness from the design vectors, then the textbook verdict
+                        dv = list(d.costs_signed[:-1]) + [not (cons - float(d.vector[0]) < 0)]
+                        sv = list(s.costs_signed[:-1]) + [not (cons - float(s.vector[0]) < 0)]
+                        if O.verdict(dv, sv) == 1:
+                            raise Violation("runs", "NSGAII:elitism:constrained", "generation %d keeps %r (costs %r, %s) "
+                                            "although the dropped design %r of generation %d (costs %r, %s) dominates it" % (
+                                                g + 1, s.vector, s.costs_signed[:-1], "infeasible" if sv[-1] else "feasible",
+                                                d.vector, g, d.costs_signed[:-1], "infeasible" if dv[-1] else "feasible"))
+                        continue
                     if O.dominates_obj(list(d.costs_signed[:-1]), list(s.costs_signed[:-1])):
                         raise Violation("runs", "NSGAII:elitism", "generation %d keeps %r (costs %r) although the dropped "
                                         "design %r of generation %d (costs %r) dominates it" % (
                                             g + 1, s.vector, s.costs_signed, d.vector, g, d.costs_signed))
-            if m == 1:
+            if m == 1 and cons is None:
                 b0 = min(i.costs_signed[0] for i in pops[g])
                 b1 = min(i.costs_signed[0] for i in pops[g + 1])
                 if b1 > b0:
@@ -192,7 +206,7 @@ def check_run(case):
     return {"nt": G >= 3 or bool(fail_vecs), "classes": [alg_name, "G>=3" if G >= 3 else "G<3",
                                                         "failures" if fail_vecs else "clean",
                                                         case.get("landscape", "smooth"), "start:" + case.get("start", "random")]
-            + (["twins-in-start"] if twins else []) + (["sqlite-record"] if stored is not None else [])}
+            + (["twins-in-start"] if twins else []) + (["sqlite-record"] if stored is not None else []) + (["constrained"] if cons is not None else [])}
 
 
 # ---------------------------------------------------------------- pop_acceptance, unit level
